@@ -78,13 +78,21 @@ def _mk_protocol(a2c, c2a):
             log.append(("ok", struct.unpack("<Q", nonce[4:])[0], len(out)))
             return out
 
-    orig = ipc.ChaCha20Poly1305Decryptor
-    ipc.ChaCha20Poly1305Decryptor = LoggingDecryptor
+    enc_log = []
+
+    class LoggingEncryptor(ipc.ChaCha20Poly1305Encryptor):
+        def encrypt(self, aad, nonce, pt):
+            enc_log.append(struct.unpack("<Q", nonce[4:])[0])
+            return super().encrypt(aad, nonce, pt)
+
+    orig, orig_e = ipc.ChaCha20Poly1305Decryptor, ipc.ChaCha20Poly1305Encryptor
+    ipc.ChaCha20Poly1305Decryptor, ipc.ChaCha20Poly1305Encryptor = LoggingDecryptor, LoggingEncryptor
     try:
         conn = _Conn()
         proto = ipc.SecureHomeKitProtocol(conn, a2c, c2a)
     finally:
-        ipc.ChaCha20Poly1305Decryptor = orig
+        ipc.ChaCha20Poly1305Decryptor, ipc.ChaCha20Poly1305Encryptor = orig, orig_e
+    proto._verif_enc_log = enc_log
     tr = _Transport()
     proto.connection_made(tr)
     return proto, conn, tr, log
@@ -184,48 +192,48 @@ def _run_inbound(rng, sizes, corrupt, reads, bit=None):
     return rec, problems
 
 
-async def _outbound(n, rng):
+async def _outbound(lens, rng):
+    """A session of several requests (lengths `lens`) through the real send_bytes; one reference accessory with a
+    session-long counter decrypts them all.  Returns one record per request."""
     a2c, c2a = os.urandom(32), os.urandom(32)
     proto, conn, tr, log = _mk_protocol(a2c, c2a)
-    c0 = rng.choice([0, 0, 5])
-    for _ in range(c0):       # earlier requests advance the counter
-        t = asyncio.ensure_future(proto.send_bytes(b"x"))
-        await asyncio.sleep(0)
-        t.cancel()
-        try:
-            await t
-        except BaseException:  # noqa: BLE001
-            pass
-        tr.closed = False
     acc = A.SecureSession(a2c, c2a)
-    for call in tr.calls:
-        acc.open_stream(b"".join(call))
-    ncalls0 = len(tr.calls)
-    payload = bytes(rng.randrange(256) for _ in range(n))
-    t = asyncio.ensure_future(proto.send_bytes(payload))
-    await asyncio.sleep(0)
-    calls = tr.calls[ncalls0:]
-    t.cancel()
-    try:
-        await t
-    except BaseException:  # noqa: BLE001
-        pass
-    problems = []
-    wire = b"".join(b"".join(c) for c in calls)
-    before = len(acc.frames_received)
-    try:
-        got = acc.open_stream(wire)
-    except ValueError as ex:
+    out = []
+    for n in lens:
+        payload = bytes(rng.randrange(256) for _ in range(n))
+        ncalls0 = len(tr.calls)
+        nenc0 = len(proto._verif_enc_log)
+        c0 = len(acc.frames_received)
+        t = asyncio.ensure_future(proto.send_bytes(payload))
+        await asyncio.sleep(0)
+        calls = tr.calls[ncalls0:]
+        # the accessory answers: the request completes normally (no cancellation, the session lives on)
+        resp = H.response(204, b"", None)
+        try:
+            proto.data_received(acc.seal(resp))
+            await asyncio.wait_for(t, 1)
+        except BaseException as ex:  # noqa: BLE001
+            t.cancel()
+        problems = []
+        wire = b"".join(b"".join(c) for c in calls)
+        before = len(acc.frames_received)
         got = None
-        problems.append(str(ex))
-    frames = acc.frames_received[before:]
-    if got is not None and got != payload:
-        problems.append("reference accessory decrypted different bytes than the request")
-    if acc.inbuf:
-        problems.append(f"{len(acc.inbuf)} trailing bytes after the last complete frame")
-    rec = {"kind": "out", "n": n, "frames": frames, "calls": len(calls), "c0": c0,
-           "counters": list(range(before, before + len(frames)))}
-    return rec, problems
+        try:
+            got = acc.open_stream(wire)
+        except ValueError as ex:
+            problems.append(str(ex))
+        frames = acc.frames_received[before:]
+        if got is not None and got != payload:
+            problems.append("reference accessory decrypted different bytes than the request")
+        if acc.inbuf:
+            problems.append(f"{len(acc.inbuf)} trailing bytes after the last complete frame")
+            acc.inbuf.clear()
+        rec = {"kind": "out", "n": n, "frames": frames, "calls": len(calls), "c0": c0,
+               "counters": proto._verif_enc_log[nenc0:]}
+        out.append((rec, problems))
+        if problems:
+            break
+    return out
 
 
 def _behaviours(ctx, tmp, num, seed):
@@ -334,13 +342,16 @@ def run(ctx):
                 for pr in problems:
                     ctx.violation(f"inbound framing: {pr} (sizes={sizes}, corrupt={corrupt}, reads={reads})", rec)
             # ---------------- outbound
-            lens = [1, 2, 1023, 1024, 1025, 2047, 2048, 2049, 3071, 3072, 3073, 5000] + [rng.randrange(1, 9000) for _ in range(ctx.pick(20, 300))]
-            for n in lens:
-                rec, problems = await _outbound(n, rng)
-                recs.append(rec)
-                ctx.case(("out", n, rec["c0"]))
-                for pr in problems:
-                    ctx.violation(f"outbound framing of a {n}-byte request: {pr}", rec)
+            bnd = [1, 2, 1023, 1024, 1025, 2047, 2048, 2049, 3071, 3072, 3073, 5000]
+            sessions = [bnd, list(reversed(bnd)), [1024, 1], [2048, 2048, 7], [3072, 1024, 1024, 5]]
+            for _ in range(ctx.pick(12, 150)):
+                sessions.append([rng.choice(bnd + [rng.randrange(1, 9000), 1024 * rng.randrange(1, 6)]) for _ in range(rng.randrange(2, 7))])
+            for lens in sessions:
+                for rec, problems in await _outbound(lens, rng):
+                    recs.append(rec)
+                    ctx.case(("out", rec["n"], rec["c0"]))
+                    for pr in problems:
+                        ctx.violation(f"outbound framing of a {rec['n']}-byte request (session {lens}): {pr}", rec)
         loop.run_until_complete(go())
         # ---------------- validate everything with TLC
         tf = os.path.join(tmp, "recs.ndjson")
